@@ -15,10 +15,13 @@ import (
 	"math/rand"
 	"os"
 	"path/filepath"
+	"sync"
 
 	"com.tuntun.rangers/node/src/common"
 	"com.tuntun.rangers/node/src/common/ed25519"
 	ed "com.tuntun.rangers/node/src/common/ed25519/edwards25519"
+	"com.tuntun.rangers/node/src/consensus"
+	"com.tuntun.rangers/node/src/consensus/groupsig"
 	"com.tuntun.rangers/node/src/consensus/logical"
 	"com.tuntun.rangers/node/src/consensus/model"
 	"com.tuntun.rangers/node/src/consensus/vrf"
@@ -207,9 +210,21 @@ func proveCase(rng *rand.Rand, k keypair, keyIdx int, m []byte, msgIdx int, want
 	emit("Transport", map[string]interface{}{"pi": cryptoutil.Ints(pi), "transported": cryptoutil.Ints(transported),
 		"z": leadingZeros(pi), "verifyDirect": verify(k.pk, pi, m), "verifyAfter": verify(k.pk, transported, m),
 		"blockVrfOk": blockOk, "qualDirect": qd, "qualAfter": qualify(transported, preBH.Height+1, working, stake),
-		"headerCodecSame": codecSame})
+		"headerCodecSame": codecSame, "helperValueSame": helperValueSame(pv, pi)})
 	counts[fmt.Sprintf("z%d", leadingZeros(pi))]++
 	return pi
+}
+
+// helperValueSame: ConsensusHelperImpl.VRFProve2Value on the header's big integer against the proof's
+// own first 32 bytes (the lottery value).
+func helperValueSame(pv *big.Int, pi []byte) (same bool) {
+	defer func() {
+		if r := recover(); r != nil {
+			same = false
+		}
+	}()
+	got := consensus.NewConsensusHelper(groupsig.ID{}).VRFProve2Value(pv)
+	return got.Cmp(new(big.Int).SetBytes(pi[:32])) == 0
 }
 
 func mutations(k keypair, m []byte, pi []byte, stride int) {
@@ -322,6 +337,135 @@ func qualCases(cases []qcase) {
 	}
 }
 
+// retention: a proof is a value. It is kept while other proofs are generated (another key, another
+// message, in this goroutine and in another one, also through the nonce hook) and only then verified,
+// carried through the header's big integer, and compared with what was recorded right after proving.
+func retention(rng *rand.Rand, rounds int) {
+	for r := 0; r < rounds; r++ {
+		for _, kind := range []string{"sameGoroutine", "otherGoroutine", "nonceHook", "manyLater"} {
+			k1, k2 := newKey(rng), newKey(rng)
+			m1, m2 := make([]byte, 32), make([]byte, 32)
+			rng.Read(m1)
+			rng.Read(m2)
+			p1, err := vrf.VRFGenProve(k1.pk, k1.sk, m1)
+			if err != nil {
+				vutil.Fatalf("prove: %v", err)
+			}
+			copy1 := append([]byte(nil), p1...)
+			out1 := append([]byte(nil), vrf.VRFProof2Hash(p1)...)
+			later := func() {
+				if _, err := vrf.VRFGenProve(k2.pk, k2.sk, m2); err != nil {
+					vutil.Fatalf("prove: %v", err)
+				}
+			}
+			switch kind {
+			case "sameGoroutine":
+				later()
+			case "otherGoroutine":
+				done := make(chan struct{})
+				go func() { later(); close(done) }()
+				<-done
+			case "nonceHook":
+				_, trunc := ed25519.VerifExpandSecret(ed25519.PrivateKey(k2.sk))
+				ed25519.VerifNonceGeneration(*trunc, ed25519.VerifHashToCurve(m2, ed25519.PublicKey(k2.pk)))
+			case "manyLater":
+				for i := 0; i < 20; i++ {
+					rng.Read(m2)
+					later()
+				}
+			}
+			emit("Retain", map[string]interface{}{"kind": kind,
+				"verifyKept":        verify(k1.pk, p1, m1),
+				"bytesSame":         bytes.Equal(p1, copy1),
+				"outputSame":        bytes.Equal(vrf.VRFProof2Hash(p1), out1),
+				"transportKept":     verify(k1.pk, vrf.VRFProve(p1).Big().Bytes(), m1),
+				"verifiesForLatest": verify(k2.pk, p1, m2)})
+		}
+	}
+}
+
+// concurrent: goroutines prove and verify different (key, message) pairs at the same time; each compares
+// every proof with the one it obtained sequentially beforehand.
+func concurrent(rng *rand.Rand, workers, iterations int) {
+	type job struct {
+		k   keypair
+		m   []byte
+		ref []byte
+	}
+	jobs := make([]job, workers)
+	for i := range jobs {
+		jobs[i].k = newKey(rng)
+		jobs[i].m = make([]byte, 32)
+		rng.Read(jobs[i].m)
+		ref, err := vrf.VRFGenProve(jobs[i].k.pk, jobs[i].k.sk, jobs[i].m)
+		if err != nil {
+			vutil.Fatalf("prove: %v", err)
+		}
+		jobs[i].ref = append([]byte(nil), ref...)
+	}
+	mismatches, failures := make([]int, workers), make([]int, workers)
+	var wg sync.WaitGroup
+	for i := range jobs {
+		wg.Add(1)
+		go func(i int) {
+			defer wg.Done()
+			j := jobs[i]
+			for it := 0; it < iterations; it++ {
+				p, err := vrf.VRFGenProve(j.k.pk, j.k.sk, j.m)
+				if err != nil || !bytes.Equal(p, j.ref) {
+					mismatches[i]++
+				}
+				if !verify(j.k.pk, p, j.m) || !verify(j.k.pk, j.ref, j.m) {
+					failures[i]++
+				}
+			}
+		}(i)
+	}
+	wg.Wait()
+	mm, ff := 0, 0
+	for i := range jobs {
+		mm += mismatches[i]
+		ff += failures[i]
+	}
+	emit("Concurrent", map[string]interface{}{"goroutines": workers, "iterations": iterations, "mismatches": mm, "verifyFailures": ff})
+}
+
+// boundary: the proposer qualifies its proof with the height of the block it builds on
+// (vrfWorker.genProve), the verifiers with the height of the proposed block (verifyBlockVRF). At the
+// one base height where the difficulty adjustment becomes active in between, the two may differ.
+func boundary(rng *rand.Rand, tries int) {
+	const p025 = 10
+	common.LocalChainConfig.Proposal025Block = p025
+	rb := common.GetRewardBlocks()
+	base := p025 + rb // not yet active for the prover; base+1 is active for the verifier
+	k := newKey(rng)
+	stake, working := uint64(10), uint64(2)
+	for t := 0; t < tries; t++ {
+		random := make([]byte, 32)
+		rng.Read(random)
+		preBH := &types.BlockHeader{Height: base, Random: random, TotalQN: 3}
+		castTime := preBH.CurTime.Add(1e9)
+		msg := logical.VerifGenVrfMsg(random, logical.CalDeltaByTime(castTime, preBH.CurTime))
+		pi, err := vrf.VRFGenProve(k.pk, k.sk, msg)
+		if err != nil {
+			vutil.Fatalf("prove: %v", err)
+		}
+		pOk, pQn := logical.VerifValidateProve(pi, preBH.Height, working, stake) // as genProve
+		if !pOk {
+			continue
+		}
+		bh := &types.BlockHeader{Height: base + 1, ProveValue: pi.Big(), CurTime: castTime, TotalQN: preBH.TotalQN + pQn}
+		vOk, why := logical.VerifVerifyBlockVRF(bh, preBH, &model.MinerInfo{VrfPK: k.pk, WorkingMiners: working}, stake)
+		// control: one height later both sides are past the activation
+		pOk2, pQn2 := logical.VerifValidateProve(pi, preBH.Height+1, working, stake)
+		pre2 := &types.BlockHeader{Height: base + 1, Random: random, TotalQN: 3}
+		bh2 := &types.BlockHeader{Height: base + 2, ProveValue: pi.Big(), CurTime: castTime, TotalQN: pre2.TotalQN + pQn2}
+		vOk2, _ := logical.VerifVerifyBlockVRF(bh2, pre2, &model.MinerInfo{VrfPK: k.pk, WorkingMiners: working}, stake)
+		emit("Boundary", map[string]interface{}{"proverQn": int(pQn), "verifierAccepts": vOk, "why": why,
+			"controlProverOk": pOk2, "controlVerifierAccepts": vOk2})
+	}
+}
+
 func main() {
 	out := flag.String("out", "trace.ndjson", "trace file")
 	script := flag.String("script", "", "JSON file: qualification cases generated by TLC")
@@ -332,6 +476,7 @@ func main() {
 	maxZ := flag.Int("maxz", 1, "search messages whose proof starts with up to this many zero bytes")
 	stride := flag.Int("stride", 1, "mutate every n-th bit")
 	attempts := flag.Int("attempts", 8, "adversarial proving attempts per torsion shift")
+	retain := flag.Int("retain", 2, "rounds of the proof-retention family")
 	flag.Parse()
 	if *scratch == "" {
 		vutil.Fatalf("--scratch required")
@@ -353,6 +498,7 @@ func main() {
 	tr = vutil.NewTrace(outAbs)
 	rng := vutil.Rng(16 + 1000**salt)
 	t8 := findT8(rng)
+	retention(rng, *retain)
 	for ki := 1; ki <= *nKeys; ki++ {
 		k := newKey(rng)
 		for mi := 1; mi <= *nMsgs; mi++ {
@@ -379,11 +525,15 @@ func main() {
 			torsion(k, m, t8, 2)
 		}
 	}
+	// retained proofs and simultaneous provers, first thing and again after everything else ran
+	retention(rng, *retain)
+	concurrent(rng, 8, 40)
 	if len(cases) > 0 {
 		qualCases(cases)
+		boundary(rng, 12)
 	}
 	tr.Close()
-	fmt.Printf("c16: prove=%d transport=%d z0=%d z1=%d z2=%d mutate=%d torsion=%d torsionAccepted=%d shiftedAccepted=%d validate=%d qualified=%d events=%d\n",
-		counts["Prove"], counts["Transport"], counts["z0"], counts["z1"], counts["z2"], counts["Mutate"], counts["Torsion"],
+	fmt.Printf("c16: retain=%d concurrent=%d boundary=%d prove=%d transport=%d z0=%d z1=%d z2=%d mutate=%d torsion=%d torsionAccepted=%d shiftedAccepted=%d validate=%d qualified=%d events=%d\n",
+		counts["Retain"], counts["Concurrent"], counts["Boundary"], counts["Prove"], counts["Transport"], counts["z0"], counts["z1"], counts["z2"], counts["Mutate"], counts["Torsion"],
 		counts["torsionAccepted"], counts["shiftedAccepted"], counts["ValidateProve"], counts["qualified"], tr.N)
 }
